@@ -149,6 +149,19 @@ theorem argminFirst_spec (a : ℝ) (r : List ℝ) :
 
 /-! ### θ of an interpolation model -/
 
+/-- the generated leaves of `fit_interpolate` say: `θ[i] = w`, `θ[i+1] = 1 − w` -/
+theorem interpTheta_spec (k i : ℕ) (w : ℝ) :
+    interpTheta k i w =
+      (List.range k).map (fun j => if j = i then w else if j = i + 1 then 1 - w else 0) := by
+  unfold interpTheta
+  simp [Rsa.Gen.C08.interpFirst, Rsa.Gen.C08.interpSecond, Rsa.Gen.C08.interpSecondIndex]
+
+/-- the result is assembled exactly as the closure `loss_opt` builds its argument -/
+theorem interpThetaRes_eq (k i : ℕ) (w : ℝ) : interpThetaRes k i w = interpTheta k i w := by
+  unfold interpThetaRes interpTheta
+  simp [Rsa.Gen.C08.interpFirst, Rsa.Gen.C08.interpSecond, Rsa.Gen.C08.interpSecondIndex,
+    Rsa.Gen.C08.interpResFirst, Rsa.Gen.C08.interpResSecond, Rsa.Gen.C08.interpResSecondIndex]
+
 theorem interpTheta_length (k i : ℕ) (w : ℝ) : (interpTheta k i w).length = k := by
   simp [interpTheta]
 
@@ -156,10 +169,10 @@ theorem interpTheta_getD (k i : ℕ) (w : ℝ) (j : ℕ) (hj : j < k) :
     (interpTheta k i w).getD j 0 = if j = i then w else if j = i + 1 then 1 - w else 0 := by
   have hl : j < (interpTheta k i w).length := by rw [interpTheta_length]; exact hj
   rw [List.getD_eq_getElem _ _ hl]
-  simp [interpTheta]
+  simp [interpTheta_spec]
 
 theorem interpTheta_sum (k i : ℕ) (w : ℝ) (hi : i + 1 < k) : (interpTheta k i w).sum = 1 := by
-  unfold interpTheta
+  rw [interpTheta_spec]
   have e : (fun j => if j = i then w else if j = i + 1 then 1 - w else (0 : ℝ)) =
       fun j => (if j = i then w else 0) + (if j = i + 1 then 1 - w else 0) := by
     funext j
@@ -360,7 +373,9 @@ theorem nnlsOuter_exit (tol : ℝ) (G : List (List ℝ)) (c : List ℝ) :
       simp only
       by_cases hlt : tol < wmax
       · rw [if_pos hlt]
-        exact ih _ _ _
+        simp only [Bool.and_eq_true]
+        intro h
+        exact ih _ _ _ h.1
       · rw [if_neg hlt]
         intro _ i hi hp
         exact le_trans (argmaxActive_some ham i hi hp) (not_lt.mp hlt)
